@@ -100,7 +100,12 @@ fn case_bytes_inner(label: &str, bytes: &[u8], with_local: bool, acc: &mut Acc) 
         acc.transitions += 1;
         astrolabe::verif_hooks::set_localtime_bytes(Some(bytes.to_vec()));
         astrolabe::verif_hooks::set_now(Some(Duration::from_secs(1_720_000_000)));
-        let r = call(|| Offset::Local.resolve());
+        // twice in a row on the same data: the second answer must be the first (and must not panic either)
+        let r = call(|| {
+            let first = Offset::Local.resolve();
+            let second = Offset::Local.resolve();
+            if first == second { first } else { panic!("second resolve on the same data gave {} after {}", second, first) }
+        });
         astrolabe::verif_hooks::set_localtime_bytes(None);
         astrolabe::verif_hooks::set_now(None);
         match &r {
